@@ -126,7 +126,10 @@ def objects(draw, max_sections=5, want_relocs=False):
     for q in range(draw(st.integers(0, 5))):
         si = draw(st.integers(1, nsec))
         size = len(expand(sections[si - 1][1]))
-        symbols.append([f"sym{q}", si, draw(st.integers(0, max(0, size - 1))), draw(st.sampled_from(["func", "func", "func", "object"]))])
+        # symbol names are free text: short ones, a name of a thousand-odd characters (mangled C++), names that read like the
+        # listing's own title / section lines
+        nm = f"sym{q}" if draw(st.integers(0, 5)) else draw(st.sampled_from(["_ZN" + "4aaaa" * 260 + "E", "log file format error", "go.string.unknown file format", "Disassembly of section .text", "a b", "x:"]))
+        symbols.append([nm, si, draw(st.integers(0, max(0, size - 1))), draw(st.sampled_from(["func", "func", "func", "object"]))])
     desc = {"bits": bits, "sections": sections, "symbols": symbols}
     if bits == 64 and (want_relocs or draw(st.integers(0, 1)) == 0):
         if not symbols:
